@@ -185,23 +185,38 @@ func TestVerif_C38(t *testing.T) {
 			}
 		}
 	}
-	// (a') every byte value at positions spread over one built path of every layout entry (markers, digest, tag, id)
+	// (a') every byte value at every element boundary of the tail of one built path per layout entry: the separator,
+	// the first two and the last character of every element (thorough: every offset of the tail)
 	for _, k := range c38Kinds {
 		c := c38Comp{"library/ubuntu", "v1", c38Hex(r), c38UUID(r), "sha256", "42"}
 		p, _ := c38Build(k, c)
-		tail := len(p) - len(c38Root+"/repositories/library/ubuntu")
+		start := len(c38Root + "/repositories/library/ubuntu")
 		if k == "blob" {
-			tail = len(p) - len(c38Root)
+			start = len(c38Root)
 		}
-		for _, off := range []int{0, 1, 2, tail / 3, tail / 2, tail - 6, tail - 5, tail - 1} {
-			i := len(p) - tail + off
-			if i < 0 || i >= len(p) {
+		offs := map[int]bool{}
+		for i := start; i < len(p); i++ {
+			if verifh.Thorough() || p[i] == '/' || p[i-1] == '/' || (i >= 2 && p[i-2] == '/') || i+1 == len(p) || p[i+1] == '/' {
+				offs[i] = true
+			}
+		}
+		for i := start; i < len(p); i++ {
+			if !offs[i] {
 				continue
 			}
 			for b := 0; b < 256; b++ {
 				run(p[:i]+string([]byte{byte(b)})+p[i+1:], nil)
 				tr.Count("byte_subst", 1)
 			}
+		}
+	}
+	// (a'') other storage roots
+	for _, root := range []string{"/v2", "/a/b/c", "x", "/docker/registry/v2/blobs"} {
+		for _, k := range c38Kinds {
+			c := c38Comp{c38Repos[r.Intn(len(c38Repos))], c38Tags[r.Intn(len(c38Tags))], c38Hex(r), c38UUID(r), "sha256", "7"}
+			p, meta := c38Build(k, c)
+			run(root+strings.TrimPrefix(p, c38Root), meta)
+			tr.Count("other_roots", 1)
 		}
 	}
 	// (b) random valid components, and mutations of the built paths (rejected or reclassified — compared with the model)
